@@ -130,6 +130,18 @@ func c01Scenario(c *Ctx, p c01Params) Sched {
 						}
 					}
 				}
+				// M2: no fetch while a response fetched earlier is certainly still fresh: call B began after call A had
+				// ended, at a clock value within T of the moment A's origin handed over its (cacheable) answer
+				for _, a := range an.Calls {
+					for _, b := range an.Calls {
+						if a == b || !isFetch(a) || !isFetch(b) || a.Call.Path != b.Call.Path || a.Call.Host != b.Call.Host || a.Call.Path != "/k1" {
+							continue
+						}
+						if a.End < b.Begin && b.Call.ClockBegin <= a.Call.ClockEnd+int64(p.T) {
+							return &vsched.Violation{Sig: "refetch-inside-lifetime", Msg: fmt.Sprintf("%s fetched %s again at +%d although the response fetched by %s was handed over at +%d with lifetime %d (nothing purged or evicted it)", b.Call.Rid, b.Call.Path, b.Call.ClockBegin-start, a.Call.Rid, a.Call.ClockEnd-start, p.T)}
+						}
+					}
+				}
 				// M3: at most one fetch per freshness lifetime
 				elapsed := x.Clock - start
 				n := 0
